@@ -17,7 +17,7 @@ target's), once, and changes nothing of the object but what is listed.
 seti), release, query and the constructors are bounded only (driver C17).
 """
 import z3
-from vf.pyvc.spec import contract
+from vf.pyvc.spec import contract, REGISTRY
 from vf.pyvc.values import *
 from vf.pyvc.engine import Raised, Unsupported
 
@@ -255,3 +255,82 @@ for qual, kind, params in (('AbstractGroup.__init__', 'group', {'self': 'self', 
              class_modules={k: F for k in CT_FIELDS}, native=False,
              note='the conversions gpp.node_param(...)._as_target() / _as_osc_arg_list() are opaque (two converted '
                   'arguments stand for the argument list); the add action is any entry of the class table (0..4)')
+
+
+# ---- Buffer.free (C17: "free emits the matching free command for every owned id exactly once, a second free
+#      emits none"; the completion function is evaluated with the buffer as it IS, before it is wiped) -----------
+FB = 'sc3/synth/buffer.py'
+FNV = 'sc3/base/functions.py'
+
+
+def bf_getattr(eng, obj, name, st, node):
+    if obj.k == 'obj' and obj.oid == 'self._server':
+        if name == '_buffer_allocator':
+            return [(st, V('obj', oid='allocator'))]
+        if name == 'addr':
+            return [(st, V('obj', oid='addr-of:self._server'))]
+    if obj.k == 'obj' and obj.oid == 'allocator' and name == 'free':
+        def fr(eng, args, kwargs, st, node):
+            st.trace.append(('alloc-free', tuple(args)))
+            return [(st, NONE)]
+        return [(st, V('func', py=('spec', fr)))]
+    if obj.k == 'obj' and obj.oid == 'addr-of:self._server' and name == 'send_msg':
+        def send(eng, args, kwargs, st, node):
+            st.trace.append(('send_msg', tuple(args)))
+            return [(st, NONE)]
+        return [(st, V('func', py=('spec', send)))]
+    return None
+
+
+def bf_value(eng, selfv, args, kwargs, st, node):
+    # fn.value(completion_msg, self): what the function sees of the buffer at THIS moment
+    num = st.objs.get('self', {}).get('_bufnum')
+    r = V('obj', oid='completion-result')
+    st.trace.append(('completion', tuple(args), num, r))
+    return [(st, r)]
+
+
+def bf_traced(name):
+    def pol(eng, selfv, args, kwargs, st, node):
+        st.trace.append((name,))
+        return [(st, NONE)]
+    return pol
+
+
+def buffer_free_post(kind):
+    def post(c):
+        t = [e for e in c.trace if e[0] in ('alloc-free', 'send_msg', 'completion', 'uncache')]
+        if kind == 'freed':
+            return z3.BoolVal(not t and not c.st.ghost.get('written'))            # a second free: nothing at all
+        k = [e[0] for e in t]
+        if sorted(k) != ['alloc-free', 'completion', 'send_msg', 'uncache'] or k[-1] != 'send_msg':
+            return z3.BoolVal(False)
+        af = [e for e in t if e[0] == 'alloc-free'][0]
+        comp = [e for e in t if e[0] == 'completion'][0]
+        send = t[-1]
+        n0 = c.pre.self._bufnum
+        wiped = all((lambda v: v is not None and v.k == 'none')(c.st.objs.get('self', {}).get(f))
+                    for f in ('_bufnum', '_frames', '_channels', '_sample_rate', '_path', '_start_frame'))
+        m = send[1]
+        ok = (len(af[1]) == 1 and af[1][0].k == 'int' and len(comp[1]) == 2 and comp[1][1].k == 'ref'
+              and comp[1][1].oid == 'self' and comp[2] is not None and comp[2].k == 'int'   # sees the number, not None
+              and len(m) == 3 and m[0].k == 'str' and m[0].py == '/b_free' and m[1].k == 'int' and m[2] is comp[3]
+              and wiped)
+        if not ok:
+            return z3.BoolVal(False)
+        return z3.And(af[1][0].z == n0, comp[2].z == n0, m[1].z == n0)            # all three about the SAME number
+    return post
+
+
+BUF = {'_server': 'obj', '_frames': 'any', '_channels': 'any', '_sample_rate': 'any', '_path': 'any',
+       '_start_frame': 'any'}
+for kind, numk in (('live', 'int'), ('freed', 'none')):
+    contract(FB, 'Buffer.free', props=('C17', 'C16'), params={'self': 'self', 'completion_msg': 'obj'},
+             ensures=[('number-returned-once,one-b_free-with-the-completion-evaluated-before-the-wipe;second-free-silent',
+                       buffer_free_post(kind))],
+             fields={'Buffer': dict(BUF, _bufnum=numk)}, hooks={'getattr': bf_getattr},
+             policies={FNV + '::value': bf_value, 'Buffer._uncache': bf_traced('uncache')},
+             class_modules={'Buffer': FB}, native=False)
+    key = '%s::Buffer.free#%s' % (FB, kind)
+    REGISTRY[key] = REGISTRY.pop('%s::Buffer.free' % FB)
+    REGISTRY[key].key = key
